@@ -5,7 +5,7 @@ import ScyllaVerif.Model.Plan
 import ScyllaVerif.Drive.Topology
 /-! Line-protocol driver for C05 (default load-balancing policy, `Plan`).
 
-Case: `plan <topology> <keyspace strategies> <config> <request> <samples>` (topology syntax: `Drive/Topology.lean`;
+Case: `plan[.<tag>] <topology> <keyspace strategies> <config> <request> <samples>` (topology syntax: `Drive/Topology.lean`;
 the flags word of a peer contains `d` = disabled by the host filter, `x` = no usable connection).
 ```
 config  := pref "/" ("t"|"n") "/" ("f"|"n") "/" ("s"|"x")      token-aware / failover permitted / shuffling (not read by the model)
@@ -124,9 +124,10 @@ def showPick (p : Option Obs) : String := match p with | none => "-" | some o =>
 
 def run (case impl : String) : String :=
   match words case with
-  | ["plan", topo, kss, cfg, req, _n] =>
-    match parseTopologyEx topo, parseStrategies kss, parseConfig cfg, parseRequest req with
-    | some ps, some ks, some cfg, some rq =>
+  | [head, topo, kss, cfg, req, nSamples] =>
+    if !(head == "plan" || head.startsWith "plan.") then "bad-case" else
+    match parseTopologyEx topo, parseStrategies kss, parseConfig cfg, parseRequest req, nSamples.toNat? with
+    | some ps, some ks, some cfg, some rq, some _ =>
       let cl := mkCluster ps ks
       let lwt := rq.routeAsLwt
       let n := (allNodes cl).length + 1
@@ -171,7 +172,7 @@ def run (case impl : String) : String :=
         match (verdicts.zip samples).find? (·.1.isSome) with
         | some (some why, s) => pre ++ " REJECT " ++ s ++ " " ++ why
         | _ => pre ++ String.join (samples.map (" " ++ ·))
-    | _, _, _, _ => "bad-case"
+    | _, _, _, _, _ => "bad-case"
   | _ => "bad-case"
 
 end ScyllaVerif.Drive.C05
